@@ -12,19 +12,51 @@ real decision, together with the aggregate signature and acceptance by `certs.Va
 namespace F3.Props.C03
 open F3.Instance
 
-/-- **Decision well-formedness**, for every configuration, table, input and op sequence. -/
+/-- `x` sent a validated DECIDE vote for `c` somewhere in the op sequence -/
+def DecideVoted (ops : List Op) (x : Pid) (c : Chain) : Prop :=
+  ∃ now m, Op.recv now m ∈ ops ∧ m.phase = .decide ∧ m.sender = x ∧ m.value = c
+
+/-- the ops are deliveries of validated messages: DECIDE is for round 0 and senders have positive scaled power -/
+def OpsValid (tbl : Table) (ops : List Op) : Prop :=
+  ∀ op ∈ ops, match op with
+    | .recv _ m => MsgOk m ∧ 0 < tbl.power m.sender
+    | _ => True
+
+theorem opsValid_opValid (tbl : Table) (ops : List Op) (h : OpsValid tbl ops) :
+    ∀ op ∈ ops, OpValid (DecideVoted ops) tbl op := by
+  intro op hop
+  have := h op hop
+  cases op with
+  | recv now m => exact ⟨this.1, this.2, fun hph => ⟨now, m, hop, hph, rfl, rfl⟩⟩
+  | start _ => trivial
+  | alarm _ => trivial
+
+/-- **Decision well-formedness**, for every configuration, table, input and op sequence: round 0 of DECIDE,
+strictly increasing in-range signer indices of positive scaled power, a strong quorum, and every listed
+signer is a member from whom a DECIDE vote for *exactly the decided value* was delivered (so, under the
+ideal-signature model, the aggregate verifies over exactly that value). -/
 theorem decision_wellformed (cfg : Cfg) (tbl : Table) (input : Chain) (ops : List Op)
-    (hops : ∀ op ∈ ops, OpValid tbl op) (d : Just)
-    (hd : (run (init cfg tbl input) ops).1.termination = some d) : DecisionOK tbl d := by
-  have h := runFrom_decinv (init cfg tbl input) ops (DecInv_init cfg tbl input) hops
+    (hops : OpsValid tbl ops) (d : Just)
+    (hd : (run (init cfg tbl input) ops).1.termination = some d) : DecisionOK (DecideVoted ops) tbl d := by
+  have h := runFrom_decinv (V := DecideVoted ops) (init cfg tbl input) ops (DecInv_init cfg tbl input)
+    (opsValid_opValid tbl ops hops)
   have ht := runFrom_tbl (init cfg tbl input) ops
   have := h.2 d hd
   rw [ht] at this
   exact this
 
+/-- D of Layer A: a reported decision is backed by a strong quorum of members that each sent DECIDE for it -/
+theorem decision_has_decide_quorum (cfg : Cfg) (tbl : Table) (input : Chain) (ops : List Op)
+    (hops : OpsValid tbl ops) (d : Just)
+    (hd : (run (init cfg tbl input) ops).1.termination = some d) :
+    strongQ tbl (sumPow tbl d.signers) = true ∧ d.signers.Pairwise (· < ·) ∧
+    ∀ i ∈ d.signers, ∃ x, tbl.index? x = some i ∧ DecideVoted ops x d.value :=
+  let h := decision_wellformed cfg tbl input ops hops d hd
+  ⟨h.strong, h.increasing, h.signed⟩
+
 /-- the signers of a decision hold at least two thirds of the table's scaled power (spelled out) -/
 theorem decision_strong_quorum (cfg : Cfg) (tbl : Table) (input : Chain) (ops : List Op)
-    (hops : ∀ op ∈ ops, OpValid tbl op) (d : Just)
+    (hops : OpsValid tbl ops) (d : Just)
     (hd : (run (init cfg tbl input) ops).1.termination = some d) :
     3 * (sumPow tbl d.signers : Int) ≥ 2 * (tbl.total : Int) := by
   have h := (decision_wellformed cfg tbl input ops hops d hd).strong
@@ -32,9 +64,10 @@ theorem decision_strong_quorum (cfg : Cfg) (tbl : Table) (input : Chain) (ops : 
 
 /-- whenever `FindStrongQuorumFor` finds a quorum in a well-formed tally it is a minimal prefix of the
 sorted signer indices: strictly increasing, in range, positive power, strong -/
-theorem quorum_result_wellformed (t : Table) (q : Tally) (c : Chain) (sg : List Nat) (hwf : TallyWF t q)
-    (h : q.findStrongQuorumFor t c = .found sg) :
-    sg.Pairwise (· < ·) ∧ (∀ i ∈ sg, i < t.entries.length ∧ 0 < t.powerAt i) ∧ strongQ t (sumPow t sg) = true :=
+theorem quorum_result_wellformed (V : Pid → Chain → Prop) (t : Table) (q : Tally) (c : Chain) (sg : List Nat)
+    (hwf : TallyWF V t q) (h : q.findStrongQuorumFor t c = .found sg) :
+    sg.Pairwise (· < ·) ∧ (∀ i ∈ sg, i < t.entries.length ∧ 0 < t.powerAt i) ∧ strongQ t (sumPow t sg) = true ∧
+    (∀ i ∈ sg, ∃ x, t.index? x = some i ∧ V x c) :=
   findStrongQuorumFor_spec t q c sg hwf h
 
 /-- Non-vacuity: a three-member table, two DECIDE votes (65% … no: 30000+20000 of 65534 ≥ 2/3) terminate the
@@ -51,9 +84,9 @@ def exOps : List Op :=
 example : (run (init exCfg exTbl [7, 8]) exOps).1.termination =
     some { round := 0, phase := .decide, value := [7, 8], signers := [0, 1] } := by decide
 
-example : ∀ op ∈ exOps, OpValid exTbl op := by
+example : OpsValid exTbl exOps := by
   intro op hop
   simp only [exOps, List.mem_cons, List.mem_nil_iff, or_false] at hop
-  rcases hop with rfl | rfl | rfl <;> simp [OpValid, MsgOk, exTbl, Table.power]
+  rcases hop with rfl | rfl | rfl <;> simp [MsgOk, exTbl, Table.power]
 
 end F3.Props.C03
